@@ -1011,3 +1011,13 @@ func asBool(o Object) Boolean {
 //@ func bIf
 //@ ensures [C03.if.true] old(depth(intp)) >= 2 && isBool(old(top(intp, 1))) && bool(asBool(old(top(intp, 1)))) && isInt(old(top(intp, 0))) && old(litRun(intp)) ==> result == nil && depth(intp) == old(depth(intp)) - 1 && top(intp, 0) == old(top(intp, 0)) && stackFrame(intp, 2)
 //@ ensures [C03.if.underflow] old(depth(intp)) < 2 ==> isPSErr(result, eStackunderflow) && depth(intp) == old(depth(intp))
+
+// C05, hex armour of an eexec section (Type 1 book 7.2): white space (and any
+// control byte) between the digits is skipped, two hexadecimal digits of
+// either case make one cipher byte, high nibble first; any other byte is an
+// error.  b is the byte just read in an iteration of the loop.
+//@ func (*scanner).readByteEexec
+//@ loop 1 invariant [C05.hex.count] 0 <= i && i <= 2 && (i == 0 ==> out == 0) && (i == 1 ==> out < 16)
+//@ loop 1 back-when [C05.hex.space] b <= 32 ==> i == prev(i) && out == prev(out)
+//@ loop 1 back-when [C05.hex.digit] b > 32 ==> specHexVal(b) != 255 && i == prev(i) + 1 && out == prev(out)*16 + specHexVal(b)
+//@ ensures [C05.hex.mode] s.eexec == old(s.eexec)
